@@ -897,8 +897,18 @@ func (rule *RuleExpression) checkMatrixExpression(expr *String) *ObjectType {
 	incTy, ok := matTy.Props["include"]
 	if ok {
 		delete(matTy.Props, "include")
+		if _, ok := incTy.(AnyType); ok {
+			// Nothing is known about the combinations statically. Same as "include: ${{ ... }}"
+			return NewEmptyObjectType()
+		}
 		if a, ok := incTy.(*ArrayType); ok {
+			if _, ok := a.Elem.(AnyType); ok {
+				return NewEmptyObjectType()
+			}
 			if o, ok := a.Elem.(*ObjectType); ok {
+				if o.IsLoose() {
+					return NewEmptyObjectType()
+				}
 				for n, p := range o.Props {
 					t, ok := matTy.Props[n]
 					if !ok {
@@ -980,8 +990,9 @@ func (rule *RuleExpression) checkMatrix(m *Matrix) *ObjectType {
 				unknown = true
 				continue
 			}
-			if t, ok := ty.(*ObjectType); !ok || t.IsLoose() {
-				// e.g. ${{ fromJSON(...) }} or ${{ github.event }}
+			if t, ok := ty.(*ObjectType); !ok || !t.IsStrict() {
+				// e.g. ${{ fromJSON(...) }}, ${{ github.event }} or ${{ vars }}. Keys of loose objects
+				// and map objects are not known statically
 				unknown = true
 				continue
 			}
